@@ -66,7 +66,8 @@ def impl():
 
 
 def ipstr(n):
-    return str(ipaddress.IPv4Address(n))
+    # (a broken mask arithmetic can push a computed address out of range: still printable, never a crash of the check)
+    return str(ipaddress.IPv4Address(n)) if 0 <= n < 2 ** 32 else f"<out-of-range:{n}>"
 
 
 def errname(e):
